@@ -75,7 +75,8 @@ def gen_labels(r, n, mode=None, keyword_rate=0.0):
         elif mode == "int":
             push(r.randrange(0, max(n, 2) + 2))
         elif mode == "spread":
-            push(r.randrange(-50, 10**6))
+            # mixed digit counts and signs: numeric order and the order of the printed names differ (2 < 10 but "10" < "2")
+            push(r.choice([r.randrange(-50, 10), r.randrange(10, 100), r.randrange(100, 2000), r.randrange(-50, 10**6)]))
         elif mode == "tuple":
             push([r.choice(["a", "b", "c"]), r.randrange(0, 6)])
         else:
@@ -245,7 +246,10 @@ def gen_bn(streams, max_n=6, min_n=1, max_card=4, max_parents=3, max_joint=4096,
         tables.append(t)
 
     rl = streams.s("labels")
-    if force_str_labels:
+    if force_str_labels == "or_int":
+        # data-frame based code: column names are strings or integers (what pandas gives a frame built from a matrix)
+        label_mode = label_mode if label_mode in ("str", "short", "prefix", "int", "spread") else weighted(rl, [("str", 5), ("short", 2), ("prefix", 1), ("int", 2), ("spread", 1)])
+    elif force_str_labels:
         label_mode = label_mode if label_mode in ("str", "short", "prefix") else weighted(rl, [("str", 5), ("short", 2), ("prefix", 1)])
     if label_mode in ("short",) and n > 20:
         label_mode = "str"
